@@ -453,8 +453,14 @@ func (e *evalEnv) eval(ex ast.Expr) Value {
 		case token.NOT:
 			return Value{T: v.T, L: []*Term{c.Not(v.L[0])}}
 		case token.SUB:
+			if v.L[0].Sort.Kind == SInt {
+				return Value{T: v.T, L: []*Term{c.IntBin("-", c.IntLit(0), v.L[0])}}
+			}
 			return Value{T: v.T, L: []*Term{c.BVNeg(v.L[0])}}
 		case token.XOR:
+			if v.L[0].Sort.Kind == SInt {
+				return Value{T: v.T, L: []*Term{c.IntBin("-", c.IntBin("-", c.IntLit(0), v.L[0]), c.IntLit(1))}}
+			}
 			return Value{T: v.T, L: []*Term{c.BVNot(v.L[0])}}
 		case token.ADD:
 			return v
